@@ -14,7 +14,7 @@ Mirrors, line by line, the code that exists in /repo/src/diagonal.works/b6/inges
                                      absolute value at a block start, delta otherwise)
 * `advance`                        = `Iterator.Advance` **as repaired by fixes/C08-advance-absent-namespace.patch**
                                      (`advanceOld` keeps the code before the repair for the counterexample)
-* `searchBlocks`                   = `sort.Search` (the loop of the Go standard library)
+* `search`                         = `sort.Search` (the loop of the Go standard library)
 
 The encoder only ever looks at `len(p.PostingList.IDs)`, never at the bytes already written, so the model
 carries the length and produces the bytes to be appended (`encodeFrom` is the right fold of `appendStep`).
@@ -138,9 +138,15 @@ def nsSwitch (s : Enc) (tnn : Nat) : Bytes × Option NsIndex × Enc :=
 def blockReset (s : Enc) : Enc :=
   if s.len % 64 = 0 then { s with start := s.len, previous := 0 } else s
 
+/-- `id.Value - p.previous` on `uint64` (wraps around when `previous > value`, i.e. on unsorted input).
+For `v, prev < 2^64` this is `(v + 2^64 - prev) % 2^64` (`wrapSub_eq_mod` in Lemmas/Posting); it is written
+without the addition of a huge literal because the kernel's unfolding of `Nat.add _ 2^64` does not terminate
+in practice. -/
+def wrapSub (v prev : Nat) : Nat := if prev ≤ v then v - prev else 2 ^ 64 - (prev - v)
+
 /-- the rest of `Append`: delta varint, or pad + absolute varint when it would cross the block end. -/
 def emit (s : Enc) (v : Nat) : Bytes × Enc :=
-  let d := putUvarint ((v + 2 ^ 64 - s.previous) % 2 ^ 64)
+  let d := putUvarint (wrapSub v s.previous)
   if (s.len - s.start) + d.length > 64 then
     let a := putUvarint v
     (padBytes s.len ++ a,
@@ -321,6 +327,57 @@ def scan (p : PostingList) (t : Table) (key : Key) : Nat → It → Except Err (
       | .error e => .error e
       | .ok c => if !c.less key then .ok (some it') else scan p t key fuel it'
 
+/-- `end` of `Advance`'s block range: `Namespaces[ns+1].Index / 64`, or `((len(ids) - 1) / 64) + 1` for the last namespace -/
+def nsEndBlock (p : PostingList) (ns : Nat) : Nat :=
+  match p.header.namespaces[ns + 1]? with
+  | some e' => e'.2 / 64
+  | none => (p.ids.length - 1) / 64 + 1
+
+/-- the end of `Advance`: true on the id the scan stopped on, or false with the iterator restored
+(`i.ns, i.i, i.value = ons, oi, ovalue`) -/
+def scanResult (it : It) : Except Err (Option It) → Except Err (Bool × It)
+  | .error e => .error e
+  | .ok (some it') => .ok (true, it')
+  | .ok none => .ok (false, it)
+
+/-- the last part of `Advance` (the target's namespace `ns` is in the list): binary search for the block,
+then scan; `e = Namespaces[ns]`. -/
+def advanceSearch (p : PostingList) (t : Table) (key : Key) (it : It) (ns : Nat) (e : NsIndex) :
+    Except Err (Bool × It) :=
+  let ii := if ns ≠ it.ns then e.2 else it.i
+  let start := ii / 64
+  let end_ := nsEndBlock p ns
+  match search (end_ - start) (blockPred p.ids start key.value) with
+  | .error e => .error e
+  | .ok j =>
+    let ii' := if j > 0 then (j + start - 1) * 64 else (j + start) * 64
+    scanResult it (scan p t key (p.ids.length + 1) { it with i := ii' })
+
+/-- `Advance` after the optional first `Next`: `it` holds a current value. -/
+def advanceFrom (fixed : Bool) (p : PostingList) (t : Table) (key : Key) (it : It) : Except Err (Bool × It) :=
+  match featureID p t it with
+  | .error e => .error e
+  | .ok current =>
+    -- if current := i.FeatureID(); id.Less(current) || id == current { return true }
+    if key.less current || key = current then .ok (true, it) else
+    match t.encode key.ns with
+    | .error e => .error e
+    | .ok enc =>
+      let nss := p.header.namespaces
+      let nn := combine key.type enc
+      let ns := walkTN nss nn it.ns
+      match nss[ns]? with
+      | none => .ok (false, it)          -- ns == len(Namespaces)
+      | some e =>
+        if e.1 > nn then
+          -- i.ns = ns; i.i = Namespaces[ns].Index; i.value, n = Uvarint(ids[i.i:]); (repaired: i.i += n)
+          if e.2 > p.ids.length then .error .panic else
+          let r := uvarintRaw (p.ids.drop e.2)
+          if fixed then
+            if r.2 ≤ 0 then .error .corrupt else .ok (true, ⟨ns, e.2 + r.2.toNat, r.1⟩)
+          else .ok (true, ⟨ns, e.2, r.1⟩)
+        else advanceSearch p t key it ns e
+
 /-- `Iterator.Advance(key)`; `fixed = false` is the code before fixes/C08-advance-absent-namespace.patch
 (the branch for a namespace that is in the table but not in the list left `i.i` on the value it had just read). -/
 def advanceWith (fixed : Bool) (p : PostingList) (t : Table) (key : Key) (it0 : It) : Except Err (Bool × It) :=
@@ -328,41 +385,7 @@ def advanceWith (fixed : Bool) (p : PostingList) (t : Table) (key : Key) (it0 : 
   match (if it0.i = 0 then next p it0 else .ok (true, it0)) with
   | .error e => .error e
   | .ok (false, it) => .ok (false, it)
-  | .ok (true, it) =>
-    match featureID p t it with
-    | .error e => .error e
-    | .ok current =>
-      if key.less current || key = current then .ok (true, it) else
-      match t.encode key.ns with
-      | .error e => .error e
-      | .ok enc =>
-        let nss := p.header.namespaces
-        let nn := combine key.type enc
-        let ns := walkTN nss nn it.ns
-        match nss[ns]? with
-        | none => .ok (false, it)          -- ns == len(Namespaces)
-        | some e =>
-          let ii := if ns ≠ it.ns then e.2 else it.i
-          if e.1 > nn then
-            -- i.ns = ns; i.i = Namespaces[ns].Index; i.value, n = Uvarint(ids[i.i:]); (repaired: i.i += n)
-            if e.2 > p.ids.length then .error .panic else
-            let r := uvarintRaw (p.ids.drop e.2)
-            if fixed then
-              if r.2 ≤ 0 then .error .corrupt else .ok (true, ⟨ns, e.2 + r.2.toNat, r.1⟩)
-            else .ok (true, ⟨ns, e.2, r.1⟩)
-          else
-            let start := ii / 64
-            let end_ := match nss[ns + 1]? with
-              | some e' => e'.2 / 64
-              | none => (p.ids.length - 1) / 64 + 1
-            match search (end_ - start) (blockPred p.ids start key.value) with
-            | .error e => .error e
-            | .ok j =>
-              let ii' := if j > 0 then (j + start - 1) * 64 else (j + start) * 64
-              match scan p t key (p.ids.length + 1) { it with i := ii' } with
-              | .error e => .error e
-              | .ok (some it') => .ok (true, it')
-              | .ok none => .ok (false, it)   -- i.ns, i.i, i.value = ons, oi, ovalue
+  | .ok (true, it) => advanceFrom fixed p t key it
 
 /-- `Iterator.Advance` (repaired code) -/
 def advance (p : PostingList) (t : Table) (key : Key) (it : It) : Except Err (Bool × It) :=
